@@ -35,6 +35,8 @@ type faultFS struct {
 	OnBlock    func()
 	Release    chan struct{}
 	blockOnce  sync.Once
+	// ShortRead > 0: every Read returns at most this many bytes (a synthetic, piped or decompressing source)
+	ShortRead int
 	// HoldOpens: every Open waits until the channel is closed and then fails (all workers fail at once while
 	// the request pipeline is full)
 	HoldOpens chan struct{}
@@ -85,6 +87,9 @@ func (f *faultFS) Open(p string) (io.ReadCloser, error) {
 	}
 	if f.BlockAt != 0 && n == f.BlockAt {
 		return &blockReader{rc: rc, left: f.BlockAfter, fs: f}, nil
+	}
+	if f.ShortRead > 0 {
+		rc = &shortReader{rc: rc, max: f.ShortRead}
 	}
 	if f.ReadErrAt != 0 && n == f.ReadErrAt {
 		return &faultReader{rc: rc, left: f.ReadAfter, on: func() {
@@ -148,3 +153,23 @@ func (r *blockReader) Read(b []byte) (int, error) {
 }
 
 func (r *blockReader) Close() error { return r.rc.Close() }
+
+type shortReader struct {
+	rc  io.ReadCloser
+	max int
+	n   int
+}
+
+func (r *shortReader) Read(b []byte) (int, error) {
+	r.n++
+	m := r.max
+	if r.n%3 == 0 && m > 1 {
+		m = m/2 + 1 // not every read has the same length
+	}
+	if len(b) > m {
+		b = b[:m]
+	}
+	return r.rc.Read(b)
+}
+
+func (r *shortReader) Close() error { return r.rc.Close() }
